@@ -1,17 +1,140 @@
 (* C11 — property theorems.  Only statements closed by `exact <lemma>` (or a
-   1-3 line wrapper) and the Print Assumptions that the check collects. *)
-From Coq Require Import ZArith List Bool Lia.
+   1-3 line wrapper) and the Print Assumptions that the check collects.
+
+   Floats are Flocq binary64 (round to nearest even).  Domain of the float
+   theorems: frame counts up to 2^50 (a 2^50-frame file of one int16 channel is
+   2 PiB), sampling rate any binary64 in [2^-64, 2^64] (`fs_ok`), byte counts
+   and channel counts below 2^53 for the online reader.  No finite enumeration
+   is used: the float theorems follow from the relative-error bound of
+   rounding to nearest. *)
+From Coq Require Import ZArith List Bool Lia Reals Lra.
 From Flocq Require Import Core BinarySingleNaN.
 From IBL.lib Require Import PyInt.
-From IBL.C11 Require Import Model Proofs.
+From IBL.C11 Require Import Model Proofs Run.
 Import ListNotations.
 Open Scope Z_scope.
 
-(* Unbounded, independent of any float reasoning: an open that succeeds maps
-   no more than the file holds and exposes at most the complete frames. *)
+(* 1. Unbounded, independent of any float reasoning: an open that succeeds maps
+   no more than the file holds (ns*nc*2 <= nbytes), hence exposes at most the
+   complete frames — for either reader class and whatever the meta file says. *)
 Theorem C11_opened_within_file : forall online wok nbytes nc fts fs ns nc' fts' rw,
   1 <= nc ->
   open_bin online wok nbytes nc fts fs = Opened ns nc' fts' rw ->
   nc' = nc /\ 0 <= ns /\ ns * nc * 2 <= nbytes /\ ns <= nbytes / (2 * nc).
 Proof. exact opened_within_file. Qed.
 Print Assumptions C11_opened_within_file.
+
+(* 2. Unbounded: every element (i, j) of the exposed (ns, nc) int16 array lies
+   inside the file, distinct elements are distinct cells, and the cells are
+   exactly the first ns*nc int16 of the file (the array IS the file's prefix;
+   no read within the shape goes beyond the file). *)
+Theorem C11_reads_within_file : forall nbytes ns nc, 1 <= nc -> ns * nc * 2 <= nbytes ->
+  (forall i j, 0 <= i < ns -> 0 <= j < nc ->
+     0 <= byte_offset nc i j /\ byte_offset nc i j + 2 <= ns * nc * 2 /\ byte_offset nc i j + 2 <= nbytes) /\
+  (forall i j i' j', 0 <= j < nc -> 0 <= j' < nc ->
+     byte_offset nc i j = byte_offset nc i' j' -> i = i' /\ j = j') /\
+  (forall c, 0 <= c < ns * nc ->
+     byte_offset nc (c / nc) (c mod nc) = 2 * c /\ 0 <= c / nc < ns /\ 0 <= c mod nc < nc).
+Proof.
+  intros nbytes ns nc Hnc Hle. split; [|split].
+  - intros i j. exact (reads_within_file nbytes ns nc i j Hnc Hle).
+  - intros i j i' j'. exact (byte_offset_inj nc i j i' j' Hnc).
+  - intros c Hc. exact (prefix_cells ns nc c Hnc Hc).
+Qed.
+Print Assumptions C11_reads_within_file.
+
+(* 3. Reader (offline), meta file with a fileTimeSecs entry that Reader.ns can
+   convert (ns0): whatever that entry claims — more, fewer or as many frames —
+   and whatever number of trailing bytes the file has, the open succeeds and
+   exposes exactly k = floor(nbytes / (2 nc)) frames; fileTimeSecs is rewritten
+   exactly when the claim disagrees with the size, and then to k / fs = rl.
+   (wok: ignore_warnings or the meta file has fileSizeBytes and fileTimeSecs.) *)
+Theorem C11_offline_exposes_floor : forall wok nbytes nc t fs ns0,
+  1 <= nc -> 1 <= nbytes -> nbytes / (2 * nc) <= 2 ^ 50 -> fs_ok fs ->
+  ns_meta (Some t) fs = NsOk ns0 ->
+  wok = true ->
+  let k := nbytes / (2 * nc) in
+  let rw := negb (nc * ns0 * 2 =? nbytes) in
+  open_bin false wok nbytes nc (Some t) fs =
+    Opened k nc (if rw then Some (rl k fs) else Some t) rw.
+Proof. exact open_offline_floor. Qed.
+Print Assumptions C11_offline_exposes_floor.
+
+(* 4. OnlineReader: int(st_size / 2 / nc) is the floor, for st_size, nc < 2^53;
+   the open succeeds whatever the meta file holds. *)
+Theorem C11_online_exposes_floor : forall wok nbytes nc fts fs,
+  1 <= nc < 2 ^ 53 -> 1 <= nbytes < 2 ^ 53 ->
+  wok = true ->
+  let k := nbytes / (2 * nc) in
+  let rw := negb (nc * k * 2 =? nbytes) in
+  open_bin true wok nbytes nc fts fs =
+    Opened k nc (if rw then Some (rl k fs) else fts) rw.
+Proof. exact open_online_floor. Qed.
+Print Assumptions C11_online_exposes_floor.
+
+Theorem C11_online_ns_is_floor : forall nbytes nc,
+  0 <= nbytes < 2 ^ 53 -> 1 <= nc < 2 ^ 53 -> ns_online nbytes nc = NsOk (nbytes / (2 * nc)).
+Proof. exact ns_online_floor. Qed.
+Print Assumptions C11_online_ns_is_floor.
+
+(* 5. Duration: rl = fl(ns / fs) (finite, correctly rounded quotient) and it
+   reads back through Reader.ns as exactly ns samples — so the fileTimeSecs
+   written by the mismatch branch (theorems 3, 4, 6: it is `rl k fs`) and the
+   duration reported afterwards both match the exposed sample count. *)
+Theorem C11_duration_matches : forall ns fs, 0 <= ns <= 2 ^ 50 -> fs_ok fs ->
+  is_finite (rl ns fs) = true /\
+  B2R (rl ns fs) = rnd64 (IZR ns / B2R fs) /\
+  ns_meta (Some (rl ns fs)) fs = NsOk ns.
+Proof. exact rl_correct. Qed.
+Print Assumptions C11_duration_matches.
+
+(* 6. Compressed stream shorter (or longer) than the meta file announces: the
+   reader exposes the chns frames the .ch file announces. *)
+Theorem C11_cbin_short_stream : forall chns nc t fs ns0,
+  0 <= chns <= 2 ^ 50 -> fs_ok fs ->
+  ns_meta (Some t) fs = NsOk ns0 ->
+  let rw := negb ((chns =? ns0) && (nc =? nc)) in
+  open_cbin chns nc nc (Some t) fs = Opened chns nc (if rw then Some (rl chns fs) else Some t) rw.
+Proof. exact open_cbin_exposes. Qed.
+Print Assumptions C11_cbin_short_stream.
+
+(* 7. The clause "opening succeeds" is FALSE on the current code for a
+   recording in progress: full statement
+     forall nbytes nc fts fs, open_bin true wok nbytes nc fts fs = Opened ...
+   fails for wok = false (ignore_warnings=False and a meta file without
+   fileSizeBytes / fileTimeSecs, which is what SpikeGLX leaves while acquiring):
+   every file ending in a partial frame raises KeyError (F-C11-b). *)
+Theorem C11_online_in_progress_refuted : forall nbytes nc fts fs,
+  1 <= nc < 2 ^ 53 -> 1 <= nbytes < 2 ^ 53 -> nbytes mod (2 * nc) <> 0 ->
+  open_bin true false nbytes nc fts fs = KeyErr.
+Proof. exact open_online_keyerror. Qed.
+Print Assumptions C11_online_in_progress_refuted.
+
+(* ---- the hypotheses are satisfiable on concrete, non-trivial inputs ---- *)
+Local Open Scope R_scope.
+Example fs_ok_30000 : fs_ok (of_me 30000 0).
+Proof.
+  unfold fs_ok. destruct (of_me_correct 30000 0 ltac:(reflexivity) ltac:(lia)) as [-> _].
+  change (bpow radix2 0) with 1. lra.
+Qed.
+(* 30000.123 = 8246371018302554 * 2^-38 *)
+Example fs_ok_fractional : fs_ok (of_me 8246371018302554 (-38)).
+Proof.
+  unfold fs_ok. destruct (of_me_correct 8246371018302554 (-38) ltac:(reflexivity) ltac:(lia)) as [-> _].
+  change (bpow radix2 (-38)) with (/ 274877906944). lra.
+Qed.
+Local Open Scope Z_scope.
+
+(* 22 frames of 385 channels + 386 trailing bytes, meta claiming 22/30000 + 1.8324 s *)
+Example ex_meta_claim : ns_meta (Some (of_me 8255698596920435 (-52))) (of_me 30000 0) = NsOk 54994.
+Proof. vm_compute. reflexivity. Qed.
+Example ex_offline : run [0; 0; 0; 1; 385 * 2 * 22 + 386; 385; 30000; 0; 1; 8255698596920435; -52]
+                     = [0; 22; 385; 1; 3; 0; 6763806160360169; -63; 3; 0; 6763806160360169; -63].
+Proof. vm_compute. reflexivity. Qed.
+(* same file, fs = 30000.123, OnlineReader, meta of a recording in progress, ignore_warnings=True *)
+Example ex_online : run [0; 1; 1; 0; 385 * 2 * 22 + 386; 385; 8246371018302554; -38; 0; 0; 0]
+                    = [0; 22; 385; 0; 3; 0; 6763778428868611; -63; 3; 0; 6763778428868611; -63].
+Proof. vm_compute. reflexivity. Qed.
+(* the defect: same, ignore_warnings=False *)
+Example ex_online_keyerror : run [0; 1; 0; 0; 385 * 2 * 22 + 386; 385; 8246371018302554; -38; 0; 0; 0] = [4].
+Proof. vm_compute. reflexivity. Qed.
